@@ -79,7 +79,7 @@ BY_PROPERTY = {
     "C10": ["ema_adjusted", "ema_time_weighted", "ema_grouped", "ema_grouped_timed"],
     "C11": ["apply_gb_reduction"],
     "C12": ["group_func_wrap"],
-    "C14": ["crosstab"],
+    "C14": ["crosstab", "apply_gb_reduction"],
     "C15": ["find_nth", "find_first_or_last_n"],
     "C16": ["groupby_var"],
     "C17": ["dataframe_from_by_keys", "series_from_by_keys"],
